@@ -5,6 +5,7 @@ import SF.GenEq.Tactic
 set_option linter.unusedSimpArgs false
 set_option linter.unusedSectionVars false
 set_option linter.unusedVariables false
+set_option maxHeartbeats 400000
 /-! Translator tie for `LTE` (src/pure_functions/lte.rs): the view generated from the Rust text = the model's `wrap A (lteCore c)`,
 for every child view: same answers and same panics on every input.  (Table-driven: tools/mk_geneq.py.) -/
 namespace SF.GenEq.LTE
@@ -22,7 +23,7 @@ theorem upd_eq (A : View α) (s : State α A.σ) (x : α)  :
     (update A s x).map (abs A) = (wrap A (lteCore s.clipping_value)).upd (abs A s) x := by
   simp only [update, wrap, mapV, binop, lteCore, abs]; gen_tie
 theorem upd_cfg (A : View α) (s s' : State α A.σ) (x : α) : update A s x = .ok s' → s'.clipping_value = s.clipping_value := by
-  simp only [update]; gen_tie
+  simp only [update, lteCore]; gen_tie
 theorem last_eq (A : View α) (s : State α A.σ)  : last A s = (wrap A (lteCore s.clipping_value)).last (abs A s) := by
   simp only [last, wrap, mapV, binop, lteCore, abs]; gen_tie
 
@@ -32,15 +33,17 @@ def sim (A : View α) (c : α)  : Sim (mkView (s0 A c) (update A) (last A)) (wra
   init_cfg := by simp [mkView, s0]
   init_abs := by rfl
   upd := fun (s : State α A.σ) x hs => by
-    have h0 := hs
-    rw [← h0]; exact upd_eq A s x 
+    have h0 : s.clipping_value = c := hs
+    have := upd_eq A s x  
+    (try rw [h0] at this); exact this
   upd_cfg := fun (s : State α A.σ) x s' hs h => by
-    have h0 := hs
+    have h0 : s.clipping_value = c := hs
     have := upd_cfg A s s' x h
     simp_all
   last := fun (s : State α A.σ) hs => by
-    have h0 := hs
-    rw [← h0]; exact last_eq A s 
+    have h0 : s.clipping_value = c := hs
+    have := last_eq A s  
+    (try rw [h0] at this); exact this
 
 /-- the Rust text of `LTE`, as translated, and the model agree on every input: same answers, same panics -/
 theorem tie (A : View α) (c : α)  (xs : List α) :
